@@ -72,11 +72,21 @@ def lines_of(text):
 def one(rng):
     fmt = rng.choice(["export", "export", "brackets", "discobrackets", "tigerxml", "terminals"])
     t, marked = mk_tree(rng, cont=(fmt == "brackets" and rng.random() < 0.75))
-    a = proto.enc_tree(t)
     sid = t.data['sid']
+    past = None
+    if fmt in ("brackets", "discobrackets", "export") and not marked and rng.random() < 0.2:
+        # a tree that was analysed before (gap degrees, navigation) and changed in place since
+        import history
+        t, past = history.aged(rng, t, reader=False, allowed=["root_attach", "punctuation_root", "punctuation_verylow",
+                                                               "punctuation_symetrify", "punctuation_delete"])
+        t.data['sid'] = sid
+        a = proto.enc_tree(t)
+        work = t            # the same objects, not a copy
+    else:
+        a = proto.enc_tree(t)
+        work = clone(t)
+        work.data['sid'] = sid
     opts = label_opts(rng, marked)
-    work = clone(t)
-    work.data['sid'] = sid
     lines = []
     if fmt == "export":
         if rng.random() < 0.4:
